@@ -357,6 +357,21 @@ fn main() {
     },
     rng.fork(),
   ));
+  // a second fixed scenario: a handle whose first commit only deletes (it writes no segment, the
+  // manifest's newest generation stays), another handle that commits a new document once, and
+  // the first handle then deleting / replacing that document: whatever the handle remembers
+  // about "the generation I last saw" must not make it trust a stale cache of live documents
+  jobs.push((
+    Scenario {
+      setup: vec![Api::NewWriter(9), Api::Add(9, 911, 0, 911), Api::Add(9, 912, 1, 912), Api::Commit(9)],
+      scripts: vec![
+        (1, vec![Api::NewWriter(1), Api::Del(1, 913, 0), Api::Commit(1), Api::Del(1, 914, 2), Api::Add(1, 915, 3, 915), Api::Commit(1)]),
+        (2, vec![Api::NewWriter(2), Api::Add(2, 916, 2, 916), Api::Add(2, 917, 3, 917), Api::Commit(2)]),
+      ],
+      compaction: false,
+    },
+    rng.fork(),
+  ));
   let njobs = jobs.len();
   let queue = Arc::new(std::sync::Mutex::new(jobs.into_iter().enumerate().collect::<Vec<_>>()));
   let results: Arc<std::sync::Mutex<BTreeMap<usize, ScenOut>>> = Arc::new(std::sync::Mutex::new(BTreeMap::new()));
